@@ -1013,10 +1013,13 @@ def eval_gauss_query(spec, rep, q, cutoff, cache=None):
             return None if abs(want - 1) < 1e-6 else ("gauss.is_pure:wrong", "is_pure is True but purity computed from cov is %.9g" % want)
         return None if _close(got, want, 1e-7) else ("bosonic.purity:wrong", "purity() = %s, from covariance %.9g" % (got, want))
     got_a = np.asarray(got)
-    if rep == "gaussian" and m in ("dm", "reduced_dm") and st.is_pure:
-        # for pure states the Gaussian class normalises the truncated state vector; compare normalised
+    if rep == "gaussian" and m in ("dm", "reduced_dm"):
+        # the Gaussian class normalises the truncated state vector on its pure-state path and does not
+        # normalise on the mixed path; both conventions are accepted (they differ by the truncated tail mass)
         k = np.asarray(want).ndim // 2
         tr = np.einsum(np.asarray(want), [i // 2 for i in range(2 * k)]).real
+        if got_a.shape == np.asarray(want).shape and _close(got_a, want, tol):
+            return None
         want = np.asarray(want) / tr
     if got_a.shape != np.asarray(want).shape:
         # known class: Gaussian pure multi-mode dm is returned as a (c^k, c^k) matrix
